@@ -181,8 +181,8 @@ def check_response_fields(ctx, res, arm, anchor, r, site, p, exact_values=False,
         ok = ok and src[0] == 'call' and src[1] == 'token::TokenStore::checkout'
         res.check(ok, 'FLOW', anchor, 'get_peers reply carries Some(token) taken from TokenStore::checkout', site=site, detail=fmt(tok)[:200], key='token:' + arm)
         # values = find_items(&g.info_hash).filter(family).collect()   -- or the same thing written as a loop
-        if isinstance(strip_transparent(vals), tuple) and strip_transparent(vals)[0] == 'loopvar' and sym is not None:
-            check_values_loop(ctx, res, arm, anchor, strip_transparent(vals), sym, site, exact_values)
+        if lib.loop_root(vals) is not None and sym is not None:
+            check_values_loop(ctx, res, arm, anchor, lib.loop_root(vals), sym, site, exact_values)
             check_nodes_from_closest(ctx, res, arm, anchor, n4, n6, site, 'info_hash')
             return
         pl = pipeline(strip_transparent(vals) if vals[0] != 'call' else vals)
@@ -342,9 +342,75 @@ def rule_families(ctx, res):
                 return ('IP', {iinv[b2]})
         if rel == 'bool' and term_int(a) is not None:
             return None
+        if rel == 'eq' and truth is not None:
+            # `want == Want::V4` / `want != Want::V6` (derived PartialEq) instead of a match
+            for x, y in ((a, b2), (b2, a)):
+                if isinstance(x, tuple) and is_param(root_of(x)) and root_of(x)[1] == 3 and field_chain(x) in (['0'], []) and agg_variant(y) in want:
+                    hit = {agg_variant(y)}
+                    return ('W', hit if truth else {k for k in want if k not in hit})
+        if c[2] is not None and c[2] in loop_blocks:
+            return None        # conditions inside a list-building loop are judged by the loop rule below
         raise Lost('find_closest_nodes: unrecognised condition %s %s' % (rel, fmt(a)))
 
+    s.loop_info()
+    loop_blocks = set()
+    for comp in getattr(s, '_loop_bodies', []):
+        loop_blocks |= set(comp)
     filters = {}
+    loop_lists = {}
+
+    def family_loop(i, lv):
+        """list i written as `for n in closest_nodes(target) { if family(n) { v.push(*n.handle()); if v.len() == 8 { break } } }`"""
+        key = (i, lv)
+        if key in loop_lists:
+            return loop_lists[key]
+        good = False
+        try:
+            st = lib.loop_stream(s, lv)
+            src = strip_transparent(st['src'])
+            is_elem = st['is_elem']
+            cap = st['cap']
+            want_fam = 'V4' if i == '0' else 'V6'
+
+            def strip_refs(t):
+                t = strip_transparent(t)
+                while isinstance(t, tuple) and t and t[0] in ('ref', 'deref'):
+                    t = strip_transparent(t[1])
+                return t
+
+            def classify_l(lit, c):
+                rel, a, b2, truth = lit
+                def fam_call(t):
+                    t = strip_transparent(t)
+                    if isinstance(t, tuple) and t[0] == 'call' and t[1] in ('std::net::SocketAddr::is_ipv4', 'std::net::SocketAddr::is_ipv6'):
+                        ad = find_calls(t, 'Node::addr')
+                        return bool(ad) and is_elem(strip_refs(ad[0][2][0]))
+                    return False
+                if rel == 'bool' and fam_call(a) and truth is not None:
+                    v4 = strip_transparent(a)[1].endswith('is_ipv4') == bool(truth)
+                    return ('fam', {'V4'} if v4 else {'V6'})
+                if rel == 'eq' and truth is not None:
+                    for x, y in ((a, b2), (b2, a)):
+                        k = term_int(y) if isinstance(y, tuple) else None
+                        if fam_call(x) and k in (0, 1):
+                            v4 = strip_transparent(x)[1].endswith('is_ipv4') == (bool(k) == bool(truth))
+                            return ('fam', {'V4'} if v4 else {'V6'})
+                raise Lost('family loop: unrecognised condition %s %s' % (rel, fmt(a)))
+
+            class _Row:
+                def __init__(self, conds):
+                    self.conds = conds
+            rows = []
+            for lits, pushed, pp in st['rows']:
+                hp = pushed is not None and bool(find_calls(pushed, 'Node::handle')) and is_elem(strip_refs(find_calls(pushed, 'Node::handle')[0][2][0]))
+                rows.extend(lib.Table.build([_Row(lits)], classify_l, lambda _p, hp=hp, pu=pushed: (True if hp else False if pu is None else 'push-other')).rows)
+            badl, _n = lib.Table(rows).compare({'fam': ['V4', 'V6']}, lambda v: v['fam'] == want_fam)
+            good = (not badl and src[0] == 'call' and src[1] == 'table::RoutingTable::closest_nodes' and is_param(strip_transparent(src[2][1]), 'target')
+                    and cap is not None and term_int(cap) == 8)
+        except Lost:
+            good = False
+        loop_lists[key] = good
+        return good
 
     def outcome(p):
         if agg_variant(p.ret) != 'Ok':
@@ -355,6 +421,8 @@ def rule_families(ctx, res):
             e = t[2].get(i)
             if is_empty_vec(e):
                 out.append(False)
+            elif lib.loop_root(e) is not None:
+                out.append(True if family_loop(i, lib.loop_root(e)) else 'bad-loop')
             else:
                 pl = pipeline(e)
                 names = [x[0] for x in pl]
@@ -381,6 +449,9 @@ def rule_families(ctx, res):
     # filter closures: list 0 keeps is_ipv4, list 1 keeps is_ipv6; map closures yield the node handle
     for i, fam in (('0', 'is_ipv4'), ('1', 'is_ipv6')):
         fs = filters.get(i, set())
+        if not fs and any(k[0] == i and v for k, v in loop_lists.items()):
+            res.ok('TABLE', fn, 'list %s (%s) is built by a loop that keeps node.addr().%s() and stores the node handle, at most 8' % (i, 'nodes' if i == '0' else 'nodes6', fam), site=b.span, key='family-filter:' + i)
+            continue
         ok = len(fs) == 1
         if ok:
             fcl, mcl = list(fs)[0]
